@@ -193,6 +193,58 @@ for _k1, _K1 in KINDS.items():
     for _k2, _K2 in KINDS.items():
         try: CONV[(_k1, _k2)] = get_converter(_K1, _K2)
         except Exception as _e: ERR.append(("conv", _k1, _k2, repr(_e)[:200]))
+# ---- declaration layouts of the same logical model: constructor parameter order differs from field declaration order
+@dataclasses.dataclass
+class LDcKw:
+    n: Optional[int] = dataclasses.field(default=None, kw_only=True)
+    a: int = dataclasses.field(default=0)
+    b_c: str = "x"
+@attr.s(auto_attribs=True)
+class LAtKw:
+    b_c: str = attr.ib(default="x", kw_only=True)
+    a: int = 0
+    n: Optional[int] = None
+@dataclasses.dataclass
+class _LBase:
+    n: Optional[int] = None
+@dataclasses.dataclass
+class LDcChild(_LBase):
+    a: int = 0
+    b_c: str = "x"
+class LInit:
+    def __init__(self, b_c: str, *, n: Optional[int], a: int):
+        self.a, self.b_c, self.n = a, b_c, n
+LAYOUTS = {"dc_kw_first": LDcKw, "attrs_kw_first": LAtKw, "dc_inherited_first": LDcChild, "init_reordered": LInit}
+INPUT_ONLY = ("init_reordered",)          # a plain class has an input shape only (documented): destination and loader, no dumper
+LCONV = {}
+for _ln, _L in LAYOUTS.items():
+    for _k, _K in PURE.items():
+        try:
+            LCONV[(_k, _ln)] = get_converter(_K, _L)
+            if _ln not in INPUT_ONLY: LCONV[(_ln, _k)] = get_converter(_L, _K)
+        except Exception as _e: ERR.append(("lconv", _k, _ln, repr(_e)[:200]))
+    for _ln2, _L2 in LAYOUTS.items():
+        if _ln in INPUT_ONLY: continue
+        try: LCONV[(_ln, _ln2)] = get_converter(_L, _L2)
+        except Exception as _e: ERR.append(("lconv", _ln, _ln2, repr(_e)[:200]))
+LLD = {(_ln, _s): Retort(strict_coercion=_s).get_loader(_L) for _ln, _L in LAYOUTS.items() for _s in (True, False)}
+LDP = {_ln: Retort().get_dumper(_L) for _ln, _L in LAYOUTS.items() if _ln not in INPUT_ONLY}
+def mk_any(kind, a, b, n):
+    if kind in LAYOUTS: return LAYOUTS[kind](a=a, b_c=b, n=n)
+    return mk_obj(kind, a, b, n)
+def layouts_convert(a, b, isnone, n):
+    """converters copy every field whatever the order of constructor parameters vs declared fields; loaders and dumpers of the layouts agree with the dataclass"""
+    nv = None if isnone else n
+    for (k1, k2), c in LCONV.items():
+        out = c(mk_any(k1, a, b, nv))
+        if fields_of(k2, out) != (a, b, nv): return False
+    for ln in LAYOUTS:
+        for s in (True, False):
+            o = outcome(LLD[(ln, s)], {"a": a, "b_c": b, "n": nv})
+            if o[0] != "ok" or fields_of(ln, o[2]) != (a, b, nv): return False
+        if ln in LDP and LDP[ln](mk_any(ln, a, b, nv)) != {"a": a, "b_c": b, "n": nv}: return False
+    return True
+
 def kinds_convert(a, b, isnone, n, ext=False):
     """converters between any two kinds of the same logical model copy every field"""
     nv = None if isnone else n
@@ -241,6 +293,10 @@ def build(tier, seed):
          timeout=tmo, family="second logical model incl. pydantic (realised data)", bounds="all 16 presence subsets")
     m.ob("convert", "a: int, b: str, isnone: bool, n: int", "return kinds_convert(a, b, isnone, n)", pre=["len(b) <= 1"], timeout=tmo,
          family="converters between any two pure-Python kinds copy every field", bounds="16 ordered kind pairs, symbolic field values")
+    m.ob("convert_layouts", "a: int, b: str, isnone: bool, n: int", "return layouts_convert(a, b, isnone, n)", pre=["len(b) <= 1"], timeout=tmo,
+         family="converters, loaders and dumpers for declaration layouts whose constructor parameter order differs from the field order",
+         bounds="4 layouts (keyword-only field declared first in a dataclass / attrs class, inherited field first, reordered __init__) x 4 pure kinds both ways "
+                "and among themselves (41 converters; the plain class is a destination only); symbolic field values")
     m.ob("convert_ext", "a: int, b: int, isnone: bool, n: int", "return kinds_convert_ext(a, b, isnone, n)",
          pre=["0 <= a <= 2 and 0 <= b <= 2 and 0 <= n <= 2"], timeout=tmo, family="converters between any two kinds copy every field (pooled values)",
          bounds="36 ordered kind pairs incl. pydantic / SQLAlchemy, field values from 3-value pools")
